@@ -35,7 +35,8 @@ type mrCtx struct {
 }
 
 func newMrCtx(r *core.Run) *mrCtx {
-	m := &mrCtx{r: r, p: r.P, funcs: r.P.PkgFuncs(mrPkg)}
+	curProg = r.P
+	m := &mrCtx{r: r, p: r.P, funcs: pkgFuncsAll(r.P, mrPkg)}
 	m.k = newK10(m.funcs)
 	m.isWGAdd = core.CallTo("(*sync.WaitGroup).Add")
 	m.isWGDone = core.CallTo("(*sync.WaitGroup).Done")
@@ -76,8 +77,8 @@ func newMrCtx(r *core.Run) *mrCtx {
 	for _, f := range m.funcs {
 		for _, c := range core.Calls(f, m.isOnceDo) {
 			for _, a := range c.Common().Args {
-				if mc, ok := a.(*ssa.MakeClosure); ok {
-					if len(core.Instrs(mc.Fn.(*ssa.Function), func(in ssa.Instruction) bool { return isBuiltinCall(in, "close") })) > 0 {
+				if g := fnOfValue(a); g != nil {
+					if len(core.Instrs(g, func(in ssa.Instruction) bool { return isBuiltinCall(in, "close") })) > 0 {
 						m.finishFns[f] = true
 					}
 				}
@@ -307,10 +308,8 @@ func c07(r *core.Run) {
 				var deferIn ssa.Instruction
 				if _, isDefer := d.(*ssa.Defer); isDefer {
 					body, deferIn = f, d
-				} else if par := f.Parent(); par != nil {
-					for _, x := range core.Instrs(par, func(in ssa.Instruction) bool { return deferredFn(in) == f }) {
-						body, deferIn = par, x
-					}
+				} else if b2, d2 := deferSiteOf(f); b2 != nil {
+					body, deferIn = b2, d2
 					if w := core.MustPass(core.Entry(f), core.Is(d), core.IsExit); w != nil {
 						o.Fail(p.InstrPos(w), "%s can end without calling WaitGroup.Done: Wait never returns", core.FuncName(f))
 					}
@@ -380,26 +379,21 @@ func c07(r *core.Run) {
 			if _, isDefer := cs.in.(*ssa.Defer); isDefer {
 				continue
 			}
-			viaOnce := false
-			if par := f.Parent(); par != nil {
-				for _, c := range core.Calls(par, m.isOnceDo) {
-					for _, a := range c.Common().Args {
-						if mc, ok := a.(*ssa.MakeClosure); ok && mc.Fn == ssa.Value(f) {
-							viaOnce = true
+			if len(runViaOnce(f)) > 0 {
+				// the closure (possibly held in a variable) is only ever run through Once.Do
+				direct := false
+				for _, g := range m.funcs {
+					for _, c := range core.Calls(g, func(in ssa.Instruction) bool { return core.AsCall(in) != nil }) {
+						if !c.Common().IsInvoke() && calleeFn(c) == f {
+							direct = true
 						}
 					}
 				}
-			}
-			if viaOnce {
-				continue
-			}
-			var body *ssa.Function
-			var deferIn ssa.Instruction
-			if par := f.Parent(); par != nil {
-				for _, x := range core.Instrs(par, func(in ssa.Instruction) bool { return deferredFn(in) == f }) {
-					body, deferIn = par, x
+				if !direct {
+					continue
 				}
 			}
+			body, deferIn := deferSiteOf(f)
 			if body == nil {
 				o.Fail(p.InstrPos(cs.in), "close of %s in %s is neither deferred nor inside sync.Once.Do: it is skipped when a callback panics (receivers block forever) or may run twice", cs.id, core.FuncName(f))
 				continue
@@ -761,26 +755,91 @@ func c07(r *core.Run) {
 					}
 					param := w.Params[idx]
 					calls := 0
+					// the wrapper may keep the body in a field of an object it creates per call
+					fields := map[string]bool{}
 					for _, x := range core.WithAnon(w) {
-						for _, dc := range core.Calls(x, func(in ssa.Instruction) bool {
-							cc := core.AsCall(in)
-							return cc != nil && !cc.Common().IsInvoke() && resolve(cc.Common().Value) == ssa.Value(param)
-						}) {
-							calls++
-							okOnce := false
-							if xp := x.Parent(); xp != nil {
-								for _, oc := range core.Calls(xp, m.isOnceDo) {
-									a := oc.Common().Args
-									if mc2, ok := a[len(a)-1].(*ssa.MakeClosure); ok && mc2.Fn == ssa.Value(x) {
-										if al, ok := resolve(a[0]).(*ssa.Alloc); ok && al.Parent() == w {
-											okOnce = true
-										}
+						for _, b := range x.Blocks {
+							for _, in := range b.Instrs {
+								st, ok := in.(*ssa.Store)
+								if !ok || resolveLocal(st.Val) != ssa.Value(param) {
+									continue
+								}
+								if tf := core.FieldAddrName(st.Addr); tf != "" {
+									if al, isAl := resolveLocal(st.Addr.(*ssa.FieldAddr).X).(*ssa.Alloc); isAl && al.Parent() == w {
+										fields[tf] = true
+									} else {
+										o.Fail(p.InstrPos(st), "the cancel body is stored into %s of an object shared between calls", tf)
 									}
 								}
 							}
-							if !okOnce {
-								o.Fail(p.InstrPos(dc), "%s calls the cancel body outside sync.Once.Do (or on a Once shared between calls)", core.FuncName(x))
+						}
+					}
+					type bodyCall struct {
+						in   ssa.CallInstruction
+						fn   *ssa.Function
+						base ssa.Value // object whose field holds the body (nil: the wrapper's parameter itself)
+					}
+					var bcs []bodyCall
+					for _, x := range m.funcs {
+						inW := false
+						for y := x; y != nil; y = y.Parent() {
+							if y == w {
+								inW = true
 							}
+						}
+						for _, dc := range core.Calls(x, func(in ssa.Instruction) bool {
+							cc := core.AsCall(in)
+							return cc != nil && !cc.Common().IsInvoke()
+						}) {
+							v := resolveLocal(dc.Common().Value)
+							if inW && v == ssa.Value(param) {
+								bcs = append(bcs, bodyCall{dc, x, nil})
+								continue
+							}
+							if tf := core.FieldAddrNameOfLoad(v); tf != "" && fields[tf] {
+								if u, ok := v.(*ssa.UnOp); ok {
+									if fa, ok := u.X.(*ssa.FieldAddr); ok {
+										bcs = append(bcs, bodyCall{dc, x, resolve(fa.X)})
+									}
+								}
+							}
+						}
+					}
+					for _, bc := range bcs {
+						calls++
+						okOnce := false
+						direct := false
+						for _, g := range m.funcs {
+							for _, c2 := range core.Calls(g, func(in ssa.Instruction) bool { return core.AsCall(in) != nil }) {
+								if !c2.Common().IsInvoke() && !m.isOnceDo(c2) && calleeFn(c2) == bc.fn {
+									direct = true
+								}
+							}
+						}
+						dos := runViaOnce(bc.fn)
+						if len(dos) > 0 && !direct {
+							okOnce = true
+							for _, oc := range dos {
+								rcv := oc.Common().Args[0]
+								if bc.base == nil {
+									al, ok := resolve(rcv).(*ssa.Alloc)
+									if !ok {
+										al, ok = cellOf(rcv).(*ssa.Alloc)
+									}
+									if !ok || al.Parent() != w {
+										okOnce = false
+									}
+								} else {
+									// the Once is a field of the very object that holds the body
+									fa, ok := rcv.(*ssa.FieldAddr)
+									if !ok || resolve(fa.X) != bc.base || !strings.HasSuffix(fa.Type().String(), "sync.Once") {
+										okOnce = false
+									}
+								}
+							}
+						}
+						if !okOnce {
+							o.Fail(p.InstrPos(bc.in), "%s calls the cancel body outside sync.Once.Do (or on a Once shared between calls)", core.FuncName(bc.fn))
 						}
 					}
 					if calls == 0 {
@@ -832,13 +891,37 @@ func c07(r *core.Run) {
 				o.Fail(p.Pos(cb.Pos()), "cancel does not test its argument for nil (cancel(nil) must yield ErrCancelWithNil)")
 				continue
 			}
+			// the value a Set call records on the paths on which the argument was nil
+			// (a φ is narrowed to the incoming edges those paths can take)
+			onNil := func(in ssa.Instruction) []ssa.Value {
+				return phiValuesFrom(core.AsCall(in).Common().Args[1], holds)
+			}
 			setNilErr := func(in ssa.Instruction) bool {
-				return isSet(in) && core.IsGlobal(mrPkg, "ErrCancelWithNil")(core.AsCall(in).Common().Args[1])
+				if !isSet(in) {
+					return false
+				}
+				vs := onNil(in)
+				for _, v := range vs {
+					if !core.IsGlobal(mrPkg, "ErrCancelWithNil")(v) {
+						return false
+					}
+				}
+				return len(vs) > 0
 			}
 			if w, bad := core.Reach(core.Q{From: heads(holds), Target: core.Or(core.IsExit, m.isFinishCall), Blocked: setNilErr}); bad {
 				o.Fail(p.InstrPos(w), "cancel(nil) does not record ErrCancelWithNil before finishing")
 			}
-			setArg := func(in ssa.Instruction) bool { return isSet(in) && isErr(core.AsCall(in).Common().Args[1]) }
+			setArg := func(in ssa.Instruction) bool {
+				if !isSet(in) {
+					return false
+				}
+				for _, v := range onNil(in) {
+					if isErr(v) {
+						return true
+					}
+				}
+				return false
+			}
 			if w := core.ReachableFromEdges(holds, setArg, nil); w != nil {
 				o.Fail(p.InstrPos(w), "cancel records its nil argument (AtomicError.Set ignores nil)")
 			}
@@ -854,7 +937,8 @@ func c07(r *core.Run) {
 			}
 			for _, s := range m.k.userSites(b) {
 				c := core.AsCall(s).Common()
-				if calleeFn(core.AsCall(s)) != nil {
+				// a caller-supplied callback, or a local adapter closure around one
+				if g := calleeFn(core.AsCall(s)); g != nil && g.Parent() == nil {
 					continue
 				}
 				sig, ok := c.Value.Type().Underlying().(*types.Signature)
@@ -1160,7 +1244,10 @@ func c07(r *core.Run) {
 					}
 				}
 				if sel == nil {
-					o.Fail(p.InstrPos(s), "Write sends without a select on ctx.Done()/done")
+					// equivalent shape: the readiness test lives in a boolean helper of the same writer
+					if why := guardedByHelper(m, f, s); why != "" {
+						o.Fail(p.InstrPos(s), "Write sends without a select on ctx.Done()/done (%s)", why)
+					}
 					continue
 				}
 				hasCtx, hasDone := false, false
@@ -1215,4 +1302,75 @@ func c07(r *core.Run) {
 			}
 		}
 	})
+}
+
+// guardedByHelper accepts `if w.stopped() { return }; w.channel <- v`: the send s
+// of f is reachable only when a boolean helper of the same receiver, which
+// answers one constant on every arm of a non-blocking select over ctx.Done()
+// and the done field, answered the other constant. It returns "" when that
+// holds, otherwise the reason.
+func guardedByHelper(m *mrCtx, f *ssa.Function, s ssa.Instruction) string {
+	why := "no dominating readiness test"
+	for _, c := range core.Calls(f, func(in ssa.Instruction) bool { _, ok := in.(*ssa.Call); return ok }) {
+		call := c.(*ssa.Call)
+		h := call.Call.StaticCallee()
+		if h == nil || !m.k.in[h] || !core.Dominates(call, s) || len(call.Call.Args) == 0 || len(f.Params) == 0 {
+			continue
+		}
+		if b, ok := h.Signature.Results().At(0).Type().Underlying().(*types.Basic); h.Signature.Results().Len() != 1 || !ok || b.Kind() != types.Bool {
+			continue
+		}
+		if resolveLocal(call.Call.Args[0]) != ssa.Value(f.Params[0]) {
+			why = "the readiness helper is asked about another writer"
+			continue
+		}
+		for _, sel := range selects(h) {
+			if sel.Blocking {
+				why = "the helper's select blocks"
+				continue
+			}
+			hasCtx, hasDone, okArms := false, false, true
+			pol := ""
+			for i, st := range sel.States {
+				if st.Dir != types.RecvOnly {
+					okArms = false
+					continue
+				}
+				if isCtxDone(st.Chan) {
+					hasCtx = true
+				} else if strings.HasPrefix(chanID(st.Chan), "field:") {
+					hasDone = true
+				}
+				arm := selectArm(h, sel, i)
+				if len(arm) == 0 {
+					okArms = false
+				}
+				for _, ret := range core.Returns(h) {
+					if _, reach := core.Reach(core.Q{From: heads(arm), Target: core.Is(ret)}); !reach {
+						continue
+					}
+					d := core.Describe(core.Result(ret, 0))
+					if d != "const:true" && d != "const:false" || (pol != "" && pol != d) {
+						okArms = false
+					}
+					pol = d
+				}
+			}
+			if !hasCtx || !hasDone || !okArms || pol == "" {
+				why = "the helper does not answer one constant whenever ctx.Done() or done is ready"
+				continue
+			}
+			isC := core.BoolVal(func(v ssa.Value) bool { return v == ssa.Value(call) })
+			atom := isC
+			if pol == "const:true" {
+				atom = core.Not(isC)
+			}
+			if w := core.Requires(f, core.Is(s), atom); w != nil {
+				why = "the send is reachable although the helper reported ctx.Done()/done ready"
+				continue
+			}
+			return ""
+		}
+	}
+	return why
 }
